@@ -18,6 +18,7 @@ EXPLANATION = (
     "same data, block_relpath = first SUBDIR_NAME_CHARS of the hex name + '/' + name; (5) addresses: start 0 and "
     "len = buffer.len() for whole blocks, start = buf.len() before the append and len = bytes read for combined "
     "files; (6) only the Kind::File path builds entries with addresses, only symlink_target() fills target."
+    " Added in later rounds: consecutive hunk numbering from the writer's sequence (C13.2c), the per-10000 subdirectory guard and path (C13.2d), who may close a hunk (C13.2e), nothing resets the combine buffer between taking `start` and appending (C13.5b)."
 )
 UNDECIDED = ["'lengths sum to the file size' and strict ordering across hunks for all layouts (values)",
              "independent decoding of every archive in every history"]
